@@ -217,6 +217,7 @@ def run(ctx, rep):
     beyond_end_rule(f, P, rep, 'C13.3')
     device_kind_rule(f, rep, 'C13.4')
     flag_word_rule(f, rep, 'C13.5')
+    decrement_rule(f, P, rep, 'C13.6')
 
 
 def device_kind_rule(f, rep, rid):
@@ -455,3 +456,41 @@ def flag_word_rule(f, rep, rid):
                                           'write, zeroing and punch requests to its file' if p == 'is_read_only' and exp else
                                           'The validation and the read / discard paths take the device for another kind'))
     rep.floor('device-kind combinations evaluated through Qcow2Info::new', n, 6)
+
+
+def decrement_rule(f, P, rep, rid):
+    """`x - c` with a constant c on a value that comes from the arguments (a length minus one, an end minus one) is only
+    safe where x >= c is known at that point: after a clamp or a rounding the zero-length check made on the raw argument
+    says nothing any more.  Decided by engine F (intervals and order facts, refinement at the validation checks) for every
+    such subtraction in the bodies that validate read_at / write_at / discard."""
+    from ..absint import AbsInt
+    rep.rule(rid, 'every subtraction of a constant from an argument-derived value in the validating bodies of read_at / write_at / '
+                  'discard is proved not to underflow at that point (interval analysis with the validation checks as refinements)')
+    n = 0
+    for name in ('read_at', 'write_at', 'discard'):
+        b = validation_body(f, P, name)
+        ai = AbsInt(f)
+        ai.analyze(b.path)
+        for key, o in sorted(ai.obl.items(), key=lambda kv: (kv[1].where, kv[0][1])):
+            if o.fn != b.path or o.kind != 'assert:Overflow':
+                continue
+            t = b.blocks[o.bi]['term']
+            msg = t.get('msg', '')
+            if not msg.startswith('Overflow(Sub'):
+                continue
+            # the subtrahend is a constant
+            ops = None
+            for s in b.blocks[o.bi]['st']:
+                if s['k'] == 'assign' and s['rv']['k'] == 'bin' and s['rv'].get('op', '').startswith('Sub'):
+                    ops = s['rv']['ops']
+            if not ops or ops[1]['k'] != 'const':
+                continue
+            n += 1
+            rep.ob(rid, '%s: %s at %s' % (name, msg.split(',')[0] + ', const)', o.where), o.ok, str(o.detail)[:160])
+            if not o.ok:
+                rep.violation(rid, '%s:%s:%s' % (rid, name, short(b.path)), o.where,
+                              '%s: the subtraction of a constant at %s is not protected: its operand can be %s there (it is computed '
+                              'after the zero-length / bounds checks, e.g. clamped to the end of the image and rounded down to a block), so '
+                              'a valid request panics with an arithmetic underflow instead of returning the documented count' % (
+                                  name, o.where, str(o.detail).split(';')[-1].strip()[:80]))
+    rep.floor('constant decrements in the validating bodies', n, 1)
